@@ -153,3 +153,10 @@ def check_case(case) -> Obs:
         if len(set(flat)) < len(flat):
             obs.cls("repeated-wells")
     return obs
+
+
+def extra_campaign(tier, seed, shard, nshards, st, known):
+    """Thorough tier: a coverage-guided libFuzzer campaign (atheris) over byte strings decoded into cases of this module."""
+    from vf.fuzzrun import campaign
+
+    campaign(PID, tier, seed, shard, nshards, st, known, runs=20000, seeds_corpus=[b"\x02\x05\x01\x02\x40\x00"])
